@@ -55,8 +55,17 @@ def fam_at(cls, arity, label, bounded, number):
             else:
                 arg = H.make_point(I)
             I.ghost["arg"] = arg
-            I.ghost["replay"] = {"kind": "evaluate", "root": slf, "pt": None if number else arg,
-                                 "x": z3.Const("x", sym.Name), "number": arg if number else None}
+            def built_point():
+                pts = list(I.ghost.get("points", {}).values())
+                return pts[0] if pts else None
+
+            def its_name():
+                p = built_point()
+                if p is not None and p.fields["_coordinates"].entries:
+                    return I.bi.key_term(p.fields["_coordinates"].entries[0][0])
+                return z3.Const("x", sym.Name)
+            I.ghost["replay"] = {"kind": "evaluate", "root": slf, "pt": built_point if number else arg,
+                                 "x": its_name if number else z3.Const("x", sym.Name), "number": arg if number else None}
             return lambda: I.call_funcdef(fd, [slf, arg], {})
 
         def post(I, res, emit):
